@@ -188,12 +188,62 @@ fn adapter_case(chip: &str, path: &str, hz: u32) -> Result<(), Failure> {
     }
 }
 
+/// every LoRa bandwidth (a transmission is on the requested frequency whatever the bandwidth: receive-side
+/// errata offsets of narrow bandwidths must not reach the transmit path)
+pub const BWS: [Bandwidth; 10] = [Bandwidth::_7KHz, Bandwidth::_10KHz, Bandwidth::_15KHz, Bandwidth::_20KHz, Bandwidth::_31KHz, Bandwidth::_41KHz, Bandwidth::_62KHz, Bandwidth::_125KHz, Bandwidth::_250KHz, Bandwidth::_500KHz];
+pub const BW_FREQS: [u32; 12] = [137_000_000, 169_400_000, 433_175_000, 470_300_000, 779_500_000, 865_062_500, 868_100_000, 868_300_000, 902_300_000, 915_000_000, 923_200_000, 1_020_000_000];
+
+/// LoRa::prepare_for_tx + tx at bandwidth BWS[bw] (SF7, after an optional earlier reception at the same
+/// bandwidth): the synthesiser word held when the transmission starts must decode to the request.
+/// Ok(false) = the driver refuses the (bandwidth, frequency) pair.
+fn bw_case(chip: &str, bw: usize, hz: u32, rx_first: bool) -> Result<bool, Failure> {
+    let case = || json!({"kind":"freq","chip":chip,"path":"prepare_for_tx-bw","hz":hz,"bw_index":bw,"bw_hz":BWS[bw].hz(),"rx_first":rx_first});
+    fn go<RK: RadioKind>(radio: RK, bw: Bandwidth, hz: u32, rx_first: bool) -> Result<bool, String> {
+        let mut lora = block_on(LoRa::new(radio, true, Delay)).map_err(|e| format!("LoRa::new Err({e:?})"))?;
+        let Ok(mp) = lora.create_modulation_params(SpreadingFactor::_7, bw, CodingRate::_4_5, hz) else { return Ok(false) };
+        if rx_first {
+            let pp = lora.create_rx_packet_params(8, false, 255, true, true, &mp).map_err(|e| format!("create_rx_packet_params Err({e:?})"))?;
+            block_on(lora.prepare_for_rx(lora_phy::RxMode::Single(10), &mp, &pp)).map_err(|e| format!("prepare_for_rx Err({e:?})"))?;
+            block_on(lora.start_rx()).map_err(|e| format!("start_rx Err({e:?})"))?;
+        }
+        let mut pp = lora.create_tx_packet_params(8, false, true, false, &mp).map_err(|e| format!("create_tx_packet_params Err({e:?})"))?;
+        block_on(lora.prepare_for_tx(&mp, &mut pp, 10, &[1, 2, 3, 4])).map_err(|e| format!("prepare_for_tx Err({e:?})"))?;
+        Ok(true)
+    }
+    let r = catch(|| match chip {
+        "sx126x" => {
+            let c = rig::new126();
+            let r = go(rig::sx126x(&c, Sx1262, false).0, BWS[bw], hz, rx_first);
+            let w = c.borrow().rf_freq_steps;
+            r.map(|ok| (ok, w))
+        }
+        _ => {
+            let kind = if chip == "sx1276" { Kind::Sx1276 } else { Kind::Sx1272 };
+            let c = rig::new127(kind);
+            let r = if kind == Kind::Sx1276 { go(rig::sx1276(&c, false, false).0, BWS[bw], hz, rx_first) } else { go(rig::sx1272(&c, false, false).0, BWS[bw], hz, rx_first) };
+            let ch = c.borrow();
+            let w = if ch.written[0x06] && ch.written[0x07] && ch.written[0x08] { Some(ch.frf()) } else { None };
+            r.map(|ok| (ok, w))
+        }
+    });
+    match r {
+        Ok(Ok((false, _))) => Ok(false),
+        Ok(Ok((true, w))) => judge_word(chip, hz, w, &case, "/tx-at-bandwidth").map(|_| true),
+        Ok(Err(e)) => Err(Failure::new("freq-decode", case(), e).with_fp(format!("freq-error/{chip}/tx-at-bandwidth"))),
+        Err(p) => Err(panic_failure(case(), &p)),
+    }
+}
+
 pub fn replay(case: &Value) -> Result<(), Failure> {
     let chip = case["chip"].as_str().unwrap_or("");
     let path = case["path"].as_str().unwrap_or("set_channel");
     let hz = case["hz"].as_u64().unwrap_or(0) as u32;
     if !CHIPS.contains(&chip) {
         return Err(Failure::new("bad-replay", case.clone(), "unknown chip"));
+    }
+    if path == "prepare_for_tx-bw" {
+        let bw = (case["bw_index"].as_u64().unwrap_or(7) as usize).min(BWS.len() - 1);
+        return bw_case(chip, bw, hz, case["rx_first"].as_bool().unwrap_or(false)).map(|_| ());
     }
     if path == "set_channel" {
         let mut out = Ok(());
@@ -289,6 +339,29 @@ pub fn sweep(ti: usize, n: usize, st: &mut Stats, full: bool) {
                     }
                 }
             });
+        }
+    }
+    // transmissions at every LoRa bandwidth
+    if ti == 0 {
+        for chip in CHIPS {
+            for bw in 0..BWS.len() {
+                for hz in BW_FREQS {
+                    for rx_first in [false, true] {
+                        st.eval();
+                        match bw_case(chip, bw, hz, rx_first) {
+                            Ok(true) => {
+                                st.class(&format!("freq:{chip}:tx-at-bandwidth"));
+                                if BWS[bw].hz() < 125_000 {
+                                    st.nt_distinct();
+                                    st.class("freq:tx-at-narrow-bandwidth");
+                                }
+                            }
+                            Ok(false) => st.class(&format!("freq:{chip}:tx-at-bandwidth:pair-refused")),
+                            Err(f) => st.fail(f),
+                        }
+                    }
+                }
+            }
         }
     }
     // named LoRaWAN channels through the adapter (tx and rx configuration paths)
